@@ -86,6 +86,17 @@ example : (buildEvalTree Gen.opPriority
 example : (buildEvalTree Gen.opPriority
     [T .op "(", T .name "a", T .other "", T .endmarker ""]).toOption = none := by decide +kernel
 
+/-- `8 ± 4 ** 2` (what `(8 ± 4) ** 2` is rewritten to): the plus-minus operator binds tighter than `**`
+    (F39 repair; the pinned code read it as 8 ± (4 ** 2)) -/
+example : (buildEvalTree Gen.opPriority
+    [T .number "8", T .op "+/-", T .number "4", T .op "**", T .number "2", T .other "", T .endmarker ""]).toOption.map Tree.toStr
+    = some "((8 +/- 4) ** 2)" := by decide +kernel
+
+/-- `2 ** 8 ± 4` : the uncertainty still belongs to the exponent's operand -/
+example : (buildEvalTree Gen.opPriority
+    [T .number "2", T .op "**", T .number "8", T .op "+/-", T .number "4", T .other "", T .endmarker ""]).toOption.map Tree.toStr
+    = some "(2 ** (8 +/- 4))" := by decide +kernel
+
 /-! ### the parser neither drops, reorders nor invents anything (`Proofs/EvalTreeLemmas.lean`) -/
 
 /-- **yield**: for the bundled priority table, the leaves of the parsed tree, read in order, are exactly the
